@@ -501,7 +501,12 @@ func (s *seqState) stepOnce() {
 		e.Tok("appendrow")
 		e.Int(t)
 		e.Row(row)
-		status, _ = guard(func() error { return f.AppendRow(f, row) })
+		// the receiver of AppendRow is irrelevant to its contract: the row goes into the frame passed as argument
+		recv := f
+		if r.Chance(40) {
+			recv = s.pool[r.Intn(len(s.pool))]
+		}
+		status, _ = guard(func() error { return recv.AppendRow(f, row) })
 	case "droprow":
 		i := r.Range(0, max(n-1, 0))
 		if bad {
